@@ -808,18 +808,38 @@ func (g *gen) productGroups(t *value.Type, b, cb budget, add func(GoVal)) {
 			}
 		}
 	}
-	if rich && isUDT {
-		// a struct that lacks the last field: that field is null
-		if n > 1 {
-			fields := make([]reflect.StructField, n-1)
-			for i := range fields {
-				fields[i] = reflect.StructField{Name: fieldNames[i], Type: defT[i], Tag: reflect.StructTag(fmt.Sprintf(`cql:"%s"`, t.Names[i]))}
+	if isUDT && n > 1 {
+		// structs that lack fields of the UDT: EVERY non-empty proper subset of the fields is omitted in turn (first,
+		// middle, last, several), the omitted fields are null. The kept fields take the k-th value of their default
+		// group, k = 0,1,2 at the top and k = 0,1 when nested (for every element type one of the first two values is
+		// not the zero value, so a kept field that is wrongly read as null / from another field's bytes shows).
+		nk := 2
+		if rich {
+			nk = 3
+		}
+		for mask := 1; mask < (1<<uint(n))-1; mask++ { // bit i set = field i omitted
+			var fields []reflect.StructField
+			var kept []int
+			for i := 0; i < n; i++ {
+				if mask&(1<<uint(i)) == 0 {
+					fields = append(fields, reflect.StructField{Name: fieldNames[i], Type: defT[i], Tag: reflect.StructTag(fmt.Sprintf(`cql:"%s"`, t.Names[i]))})
+					kept = append(kept, i)
+				}
 			}
-			sv := reflect.New(reflect.StructOf(fields)).Elem()
-			for i := range fields {
-				sv.Field(i).Set(defV[i].RV)
+			st := reflect.StructOf(fields)
+			for k := 0; k < nk; k++ {
+				sv := reflect.New(st).Elem()
+				for fi, i := range kept {
+					vals := slot[i][0].Vals
+					if v := vals[k%len(vals)]; v.RV.IsValid() {
+						sv.Field(fi).Set(v.RV)
+					}
+				}
+				add(GoVal{sv, false})
+				if rich && k == 1 {
+					add(ptrVal(GoVal{sv, false}))
+				}
 			}
-			add(GoVal{sv, false})
 		}
 	}
 
